@@ -23,7 +23,7 @@ COMMON_NOTE = ("Trusted base: Kani 0.68 / CBMC 6.11 translation of the compiled 
 
 CLAIMS = {
     "C01": {
-        "text": "Writer half only, token kernels: for ALL names of 1-2 bytes, ALL literal strings of 1-2 bytes, ALL 2-byte hex strings and ALL i16 integers the bytes lopdf writes are decoded by an ISO 32000-1 (7.3.3-7.3.5) reference reader to exactly the original value; free/compressed xref-table entries are 20-byte 'f' entries; the [1 4 2] cross-reference-stream row packing is inverted by the reader's own big-endian field decoder for ALL (u8,u32,u16).",
+        "text": "Writer half only, token kernels: for ALL names of 1-3 bytes (4 in the thorough tier), ALL literal strings of 1-2 bytes, ALL 2-byte hex strings and ALL i16 integers the bytes lopdf writes are decoded by an ISO 32000-1 (7.3.3-7.3.5) reference reader to exactly the original value; need_separator/need_end_separator agree with the first/last byte written for every 1-byte name; free/compressed xref-table entries are 20-byte 'f' entries (in-use entries for ALL u32 offsets x u16 generations in the thorough tier); the [1 4 2] cross-reference-stream row packing is inverted by the reader's own big-endian field decoder for ALL (u8,u32,u16).",
         "design_ref": "DESIGN.md section 4 C01",
         "note": COMMON_NOTE + "NOT decided: Document::save_to/load_mem as a whole, nesting, separators between array/dictionary elements, reals, strings/names longer than 2 bytes, the reader (parser) side, both feature configurations. A regression there is not detected.",
     },
@@ -33,9 +33,9 @@ CLAIMS = {
         "note": COMMON_NOTE + "NOT decided: whole-file structure (header, startxref, subsection splitting in write_xref, Index/W/Length consistency in create_xref_steam, incremental save) - the harnesses for these did not reach a verdict inside the caps and are not part of the claim.",
     },
     "C04": {
-        "text": "No-panic (overflow checks on) for the decoders that could be encoded: PNG decode_row for all rows <= 4 bytes x bpp 1..3, ASCII85 on all bodies of 1-2 bytes + '~>', decompress_predictor for ANY i64 Columns/Colors/BitsPerComponent, and the absence of lone-surrogate cells in all five one-byte tables (bytes_to_string's expect).",
+        "text": "No-panic (overflow checks on) for the decoders that could be encoded: Stream::decode_ascii85 on ALL inputs of 4, 5 and 6 bytes, decode_text_string on ALL raw strings of 3 and 4 bytes (5 thorough), PNG decode_row for all rows <= 4 bytes x bpp 1..3, decompress_predictor for ANY i64 Columns/Colors/BitsPerComponent, and the absence of lone-surrogate cells in all five one-byte tables (bytes_to_string's expect).",
         "design_ref": "DESIGN.md section 4 C04",
-        "note": COMMON_NOTE + "NOT decided: every entry point that goes through the nom parser (load_mem, Content::decode, CMap parsing, ObjectStream::new), decode_xref_stream, decode_text_string, allocation-size and termination bounds. The property is therefore decided for a small fraction of its entry points only.",
+        "note": COMMON_NOTE + "NOT decided: every entry point that goes through the nom parser (load_mem, Content::decode, CMap parsing, ObjectStream::new), decode_xref_stream, ToUnicode lookup, allocation-size and termination bounds. The property is therefore decided for a fraction of its entry points only.",
     },
     "C05": {
         "text": "Primitive-level round trips: PKCS#5 pad/unpad for ALL 16-byte blocks and pad positions (and rejection of every malformed padding), RC4 encrypt/decrypt inverse and published keystream for key 'Key' on ALL 8-byte plaintexts, identity crypt filter.",
@@ -43,9 +43,9 @@ CLAIMS = {
         "note": COMMON_NOTE + "NOT decided: Document::encrypt/decrypt, encrypt_object/decrypt_object (object walking, Crypt overrides, Metadata/XRef exemptions), AES filters, password authentication, save/reload. The claim covers the RC4/PKCS#5/identity primitives only.",
     },
     "C06": {
-        "text": "Agreement with the standard for the pieces that could be encoded: Permissions::p_value vs ISO 32000-1 Table 22 for ALL 2^64 bit patterns, RC4 vs the published test vector on ALL 8-byte plaintexts, PKCS#5 padding as RFC 2898 defines it for ALL blocks.",
+        "text": "Agreement with the standard for the pieces that could be encoded: Algorithm 1 (per-object keys, RC4 40/128-bit and AESV2) - the exact byte string fed to MD5 and the truncation, for ALL file keys, object numbers and generations; Algorithm 2 for revision 2 (MD5 input layout: padded password, O, P little-endian, file id; single digest; 5-byte key) for ALL 5-byte passwords, O entries, permission words and file ids; Permissions::p_value vs Table 22 for ALL 2^64 bit patterns; RC4 vs the published test vector on ALL 8-byte plaintexts (two more keys vs an independent reference in the thorough tier); PKCS#5 padding for ALL blocks.",
         "design_ref": "DESIGN.md section 4 C06",
-        "note": COMMON_NOTE + "NOT decided: Algorithms 1-13 message layouts (the recording-MD5 harnesses did not reach a verdict), key derivation, R5/R6, interoperability on whole files. Agreement of the key-derivation code with ISO 32000 is NOT established by this check.",
+        "note": COMMON_NOTE + "MD5 itself is replaced by a recording model (the message construction is what lopdf owns). NOT decided: Algorithm 2 for revisions 3-4 (the 50-round harnesses exceed the memory cap), Algorithms 2.A/2.B and 3-13, R5/R6, AES ciphertexts, interoperability on whole files.",
     },
     "C09": {
         "text": "PNG predictors vs the PNG text (Paeth for all 2^24 triples, every filter type on all rows <= 4 bytes x bpp 1..3), ASCII85 vs an ISO 7.4.3 reference on all bodies of 1-2 bytes + '~>' (3 bytes in the thorough tier), DecodeParms -> (bytes-per-pixel, columns) plumbing for Predictor 0..20 / Columns <= 10^6 / Colors <= 32 / Bits 8|16 with each key present or null, Length bookkeeping of Stream::new/set_content, and compress(): never longer, Length consistent, Filter set iff replaced, already-filtered streams untouched (encoder stub with arbitrary output length).",
@@ -58,9 +58,9 @@ CLAIMS = {
         "note": COMMON_NOTE + "NOT decided: Content::encode's own separator logic (its harness did not reach a verdict), Content::decode (nom), inline images. Shares its harnesses with C01.",
     },
     "C16": {
-        "text": "Codec tables and UTF-16BE encoder: encode_utf16_be for EVERY Unicode scalar value (BOM, big-endian units, surrogate pairs); all five one-byte tables free of surrogate cells; printable-ASCII and Latin-1 portions of WinAnsi / MacRoman / PDFDoc / Standard agree with the Annex D rules for all 256 bytes.",
+        "text": "Text strings and tables: text_string() for EVERY one-character text up to U+07FF is either the single PDFDocEncoding byte - only when that byte decodes back to the same character, always for printable ASCII - or BOM + UTF-16BE; decode_text_string() returns the character for FE FF + EVERY non-surrogate unit, an astral character for EVERY surrogate pair, exactly one character for every PDFDocEncoding byte text_string() can emit, and the text without the mark for UTF-8-with-BOM strings (every U+0080..U+07FF); it returns a value or an error on ALL raw strings of 3-4 bytes; encode_utf16_be for EVERY scalar value; all five one-byte tables free of surrogate cells; printable-ASCII and Latin-1 portions agree with the Annex D rules.",
         "design_ref": "DESIGN.md section 4 C16",
-        "note": COMMON_NOTE + "NOT decided: text_string/decode_text_string round trip (harnesses did not reach a verdict; by reading, ASCII control characters are dropped by the PDFDocEncoding table rows 0x00-0x17 - recorded as undecided in DESIGN.md section 6), re-encoding stability, text extraction.",
+        "note": COMMON_NOTE + "The round trip is decided as two halves on one-character strings (encode half and decode half on concrete-length byte strings), not on arbitrary strings. NOT decided: multi-character strings, re-encoding stability of the one-byte tables (string_to_bytes), text extraction, save/reload.",
     },
     "C19": {
         "text": "CountingWrite (the byte accounting every cross-reference offset is computed from) under an adversarial sink: for every budget 0..9, chunk size 1..3, failure kind (hard error, zero-length write) and one transient Interrupted at any offset, either all bytes arrive unchanged and bytes_written equals the bytes accepted, or an error is reported - never silent success.",
